@@ -27,6 +27,9 @@ CHECKS = {
  'C14': dict(design='4/C14', technique='TLA+ grammar function (PatternGrammar.tla) as oracle; TLC validates parse records; TLC-exhaustive round-trip lemma',
    text="The pattern syntax is transcribed into TLA+ as a function from text to atoms (PatternGrammar.tla). TLC proves by exhaustion over all texts <= 5 (thorough 6) on a 10-symbol marker alphabet the round-trip lemma (parsing Escape(lit) yields one fuzzy atom with needle lit) and that empty atoms are dropped; every record of the real parser (all texts <= 4 over a 13-symbol marker/whitespace/escape/non-ASCII alphabet x 6 settings through Pattern::parse, rotating Pattern::new/Atom::parse/Atom::new, random longer texts, reparse histories) is consumed by PatternTrace whose action requires atoms = Parse(text) including the private case/normalisation flags.",
    note="Trusted: TLC; Debug output of Atom for the two private flags; the crate's public fold/normalise/is_upper_case maps (C16). Texts avoid multi-code-point graphemes (C17)."),
+ 'C15': dict(design='4/C15', technique='TLA+ composition laws (PatternScore.tla); TLC validates score/indices/multi-column/match_list records',
+   text="The composition laws (conjunction with negation, sum of positive atoms, indices appended per positive atom in atom order, column conjunction, stable descending sort of exactly the matching inputs) are TLA+ operators; every record of the real code (random patterns of 0-4 mixed atoms; Pattern::score, Pattern::indices with prior vector content, a permuted atom order, MultiPattern::score over 1-3 columns, Pattern::match_list and Atom::match_list over up to 60 items with score ties, all on one shared matcher whose case/normalisation settings are scrambled before each call) is consumed by the trace action, whose per-atom inputs come from direct Matcher calls on a matcher that only ever served that atom.",
+   note="Trusted: the per-atom Matcher results (C01-C05 decide those); the private atom flags are read from Debug output; TLC."),
  'C16': dict(design='4/C16', technique='TLA+ (CharsCheck.tla) over the complete dumped graph of the three public maps + probe-match disagreement sets; exhaustive over all 1,112,064 scalars',
    text="Finite domain decided completely: the harness dumps the full non-identity graph of normalize / to_lower_case / is_upper_case over all scalar values and, for each (ignore_case, normalize) configuration and each scalar, five probe matches that observe the matcher's internal normalisation routines; TLC consumes every dump entry (one action each) and checks equality with reference simple case folding, the decomposition-base rule inside the documented blocks, idempotence, ASCII fixed points, block confinement, agreement of the routines, and completeness against the reference tables.",
    note="Trusted: Python unicodedata (Unicode 14.0) as reference; code points unassigned there are reported as unchecked. Probes observe internals only through match results."),
